@@ -251,8 +251,15 @@ def judge(ctx, work, rows, died):
                 bad("send-refused", "returns an error without sending although the request is encodable",
                     "request sent: " + T.short(spec, 300), "error: " + show(detail_hex)[:300])
             continue
-        if nframes != 1:
-            bad("frames", "%d request frames reached the server" % nframes, "1 request frame", "%d frames" % nframes)
+        rejected = "+rejected-once" in gzflag
+        if rejected:
+            stats["calls_whose_first_copy_was_rejected_with_bad_server_salt"] = stats.get("calls_whose_first_copy_was_rejected_with_bad_server_salt", 0) + 1
+        if nframes != (2 if rejected else 1):
+            bad("frames", "%d request frames reached the server%s" % (nframes, " (the first copy was rejected with bad_server_salt)" if rejected else ""),
+                "%d request frame(s)" % (2 if rejected else 1), "%d frames" % nframes)
+            continue
+        if rejected and "+resent-equal" not in gzflag:
+            bad("resent-differs", "the request sent again after bad_server_salt is not the request that was rejected", "the same request bytes", "other bytes")
             continue
         if rhex == "unopenable" or rhex.startswith("plain:"):
             bad("envelope", "request left the client %s" % rhex[:12], "an encrypted frame under the session key", rhex[:80])
